@@ -224,7 +224,7 @@ func (tok *scdToken) GetKey(ctx context.Context, keyName string) (token.Key, err
 		key = kc
 		break
 	}
-	if key.KeyId == "" {
+	if key == nil || key.KeyId == "" {
 		return nil, fmt.Errorf("key %s not found in token %s", keyName, tok.tokenConf.Name())
 	}
 	pubkey, err := key.Public()
